@@ -255,6 +255,15 @@ def step (st : St) (pre post : List String) : St × Verdict :=
     match hexOpt url with
     | some u => ({ st with urls := (u, name) :: st.urls }, .ok)
     | none => (st, .bad "anyurl")
+  | ["isafter", uh, ouh, ov, tm, h] =>
+    match uh.toInt?, ouh.toInt?, ov.toInt?, h.toInt?, post with
+    | some u, some o, some v, some hh, [got, res] =>
+      let g := getCodecUpgradeHeight u o
+      let r := isAfterCodecUpgrade { upgradeHeight := g, override := v, testMode := tm = "1" } hh
+      if toString g != got then (st, .diff s!"GetCodecUpgradeHeight({u},{o}): model={g} impl={got}")
+      else if toString r != res then (st, .diff s!"IsAfterCodecUpgrade({hh}) with upgrade height {g}: model={r} impl={res}")
+      else (st, .ok)
+    | _, _, _, _, _ => (st, .bad "isafter")
   | "c16" :: _ => (st, stepC16 st pre post)
   | "bigtext" :: _ => (st, stepC16 st pre post)
   | _ => (st, .bad "op")
